@@ -1039,7 +1039,7 @@ func (f *FnVC) convert(x *ssa.Convert) {
 		f.typeFacts(tv, true)
 		lo, hi, _ := intRange(to)
 		tr := "(ite (>= " + a.T + " 0.0) (to_int " + a.T + ") (- (to_int (- " + a.T + "))))"
-		inr := sAnd("(<= "+sBig(lo)+".0 "+a.T+")", "(<= "+a.T+" "+sBig(hi)+".0)", f.realFinite(a.T))
+		inr := sAnd("(<= (to_real "+sBig(lo)+") "+a.T+")", "(<= "+a.T+" (to_real "+sBig(hi)+"))", f.realFinite(a.T))
 		f.fact(sImp(inr, sEq(tv.T, tr)))
 	case fs == "Real" && ts == "Real":
 		f.define(x, a.T)
@@ -1159,7 +1159,14 @@ func (f *FnVC) typeAssert(x *ssa.TypeAssert) {
 
 func (f *FnVC) makeSlice(x *ssa.MakeSlice) {
 	ln, cp := f.val(x.Len).T, f.val(x.Cap).T
+	mcap := "4611686018427387904"
+	if sl, ok := x.Type().Underlying().(*types.Slice); ok {
+		mcap = maxCapFor(sl.Elem())
+	}
 	f.oblige("panic.makeslice", "make: 0 <= len <= cap", sAnd("(<= 0 "+ln+")", "(<= "+ln+" "+cp+")"), x.Pos())
+	// memory exhaustion is not a panic of the function: execution continues only if the allocation succeeded
+	f.gfact("(<= " + cp + " " + mcap + ")")
+	f.trusted["allocations succeed: a make larger than the runtime's largest allocation (2^48 bytes) is memory exhaustion, not modelled"] = true
 	sl := x.Type().Underlying().(*types.Slice)
 	r := f.freshConst("mkref", "Int")
 	nr := f.st.get("$nextref")
